@@ -328,6 +328,9 @@ func genVal(r *Rng, kind int, nullable bool) any {
 		v = genTime(r)
 	case jsonapi.AttrTypeBytes:
 		v = genBytes(r)
+		if r.chance(1, 8) {
+			v = []byte(nil) // a nil slice, by value or behind a non-nil pointer
+		}
 	}
 	if !nullable {
 		return v
